@@ -3,9 +3,12 @@
 MIRROR of the row-writer wrappers of parquet-go and of two leaf writers, over an explicit memory of
 `[]Value` backing arrays (`Mem`) AND of `[]Row` backing arrays (`RMem`):
 
-* `filterRowWriter.WriteRows`      filter.go:52-86 (`asIs = true`: as it was before the repair, the
-                                   deferred `clearValues` over `f.rows`; `asIs = false`: the repair,
-                                   the deferred loop only drops the references)
+* `filterRowWriter.WriteRows`      filter.go:52-90 (`clear = true`: as it was before the first repair, the
+                                   deferred `clearValues` over `f.rows`; `clear = false`: the deferred loop
+                                   only drops the references. `shadow = true`: as it was before the second
+                                   repair, `_, err := f.writer.WriteRows(...)` shadowed the named result so
+                                   that a failed write returned `n, nil`; `shadow = false`: the code, the
+                                   error of the underlying writer is the error of the call)
 * `transformRowWriter.WriteRows`   transform.go:108-141 (`makeRows` row.go:374-381, `clearRows` row.go:383-388)
 * `dedupeRowWriter.WriteRows`      dedupe.go:45-66 with `dedupe.deduplicate` dedupe.go:78-108
 * `multiRowWriter.WriteRows`       row.go:237-248 (binary; `MultiRowWriter(a, b, c)` = `multi a (multi b c)`)
@@ -23,7 +26,7 @@ drop references, `clearRows`, `buf.rows = append(buf.rows, row)`), which `[]Row`
 is handed (`f.rows[:i]`, `t.rows[:numRows]`, `d.rows[:n]`, the argument itself for `MultiRowWriter`),
 the chunking loops (42 rows for the filter, `len(t.rows)` for the transform), the state the wrappers
 keep between calls (`f.rows`, `t.rows`, `d.rows`, `d.lastRow`, `buf.values`, `buf.rows`), error paths
-(including the shadowed `err` of filter.go:74 which makes the filter return `n, nil` after a failed write).
+(the filter returns the count of the completed chunks and the error of the underlying writer).
 What is NOT: byte arrays behind BYTE_ARRAY values; capacities chosen by Go's `append` growth (the model
 allocates exactly; only in-place-vs-realloc decisions of library-owned arrays depend on it, which is not
 observable in caller memory or in what is delivered downstream); the scratch slices `d.uniq` / `d.dupe`
@@ -196,6 +199,7 @@ structure Beh where
 inductive Shape where
   | sink (id failAt : Nat)
   | rowbuf (id : Nat)
+  /-- `asIs = true`: the filter as it was before both repairs (`clear` and `shadow`) -/
   | filter (asIs : Bool) (id k : Nat) (inner : Shape)
   | transform (id k : Nat) (inner : Shape)
   | dedupe (id k : Nat) (inner : Shape)
@@ -245,10 +249,11 @@ def chunks {α} (k : Nat) : Nat → List α → List (List α)
 
 def filterRowBufferSize : Nat := 42
 
-/-- filter.go:61-83, the loop over chunks of `len(f.rows)` = 42 rows. `acc = (st, m, rm, n)` -/
+/-- filter.go:65-87, the loop over chunks of `len(f.rows)` = 42 rows. Returns `(st, m, rm, n, err)`:
+    `n` counts the rows of the chunks completed before a failure of the underlying writer -/
 def filterChunks (B : Beh) (id k : Nat) (inner : Writer) :
-    List (List Hdr) → St → Mem → RMem → Nat → St × Mem × RMem × Nat
-  | [], st, m, rm, n => (st, m, rm, n)
+    List (List Hdr) → St → Mem → RMem → Nat → St × Mem × RMem × Nat × Bool
+  | [], st, m, rm, n => (st, m, rm, n, false)
   | c :: cs, st, m, rm, n =>
     let sel := c.filter fun h => B.pred k (row m h)
     let held := (st.node id).held
@@ -257,8 +262,8 @@ def filterChunks (B : Beh) (id k : Nat) (inner : Writer) :
     if sel.length > 0 then
       -- `f.writer.WriteRows(f.rows[:i])`
       let r := inner st m rm1 ⟨held.arr, held.off, sel.length, held.cap⟩
-      -- filter.go:74-77: `_, err := ...; if err != nil { break }` — the inner `err` shadows the result
-      if r.err then (r.st, r.m, r.rm, n) else filterChunks B id k inner cs r.st r.m r.rm (n + c.length)
+      -- filter.go:80-82: `if _, err = f.writer.WriteRows(f.rows[:i]); err != nil { break }`
+      if r.err then (r.st, r.m, r.rm, n, true) else filterChunks B id k inner cs r.st r.m r.rm (n + c.length)
     else filterChunks B id k inner cs st m rm1 (n + c.length)
 
 /-- `rows [defaultRowBufferSize]Row` is part of the filter struct: an array of 42 nil rows exists from
@@ -268,8 +273,8 @@ def filterInit (id : Nat) (st : St) (rm : RMem) : St × RMem :=
   else (st.set id { st.node id with held := ⟨rm.length, 0, filterRowBufferSize, filterRowBufferSize⟩ },
         rm ++ [(false, List.replicate filterRowBufferSize Hdr.nil)])
 
-/-- filter.go:52-86 -/
-def filterWrite (B : Beh) (asIs : Bool) (id k : Nat) (inner : Writer)
+/-- filter.go:52-90 -/
+def filterWrite (B : Beh) (clear shadow : Bool) (id k : Nat) (inner : Writer)
     (st : St) (m : Mem) (rm : RMem) (rows : RHdr) : Res :=
   let st0 := (filterInit id st rm).1
   let rm0 := (filterInit id st rm).2
@@ -279,12 +284,14 @@ def filterWrite (B : Beh) (asIs : Bool) (id k : Nat) (inner : Writer)
   let m1 := r.2.1
   let rm1 := r.2.2.1
   let held := (st1.node id).held
-  if asIs then
-    -- before the repair: `clearValues(clear[i])` for all 42 entries, which are the caller's rows
-    ⟨st1, (rowsOf rm1 held).foldl clearValues m1, rm1, r.2.2.2, false⟩
+  -- before the second repair the error was assigned to a variable shadowing the named result
+  let err := if shadow then false else r.2.2.2.2
+  if clear then
+    -- before the first repair: `clearValues(clear[i])` for all 42 entries, which are the caller's rows
+    ⟨st1, (rowsOf rm1 held).foldl clearValues m1, rm1, r.2.2.2.1, err⟩
   else
     -- `for i := range f.rows { f.rows[i] = nil }`
-    ⟨st1, m1, storeR rm1 held.arr held.off (List.replicate held.len Hdr.nil), r.2.2.2, false⟩
+    ⟨st1, m1, storeR rm1 held.arr held.off (List.replicate held.len Hdr.nil), r.2.2.2.1, err⟩
 
 /-- `makeRows(n)` row.go:374-381: n rows of capacity 1 carved out of one array of n values -/
 def makeRows (m : Mem) (rm : RMem) (n : Nat) : Mem × RMem × RHdr :=
@@ -413,7 +420,7 @@ def multiWrite (wa wb : Writer) (st : St) (m : Mem) (rm : RMem) (rows : RHdr) : 
 def write (B : Beh) : Shape → Writer
   | .sink id failAt => sinkWrite id failAt
   | .rowbuf id => rowbufWrite id
-  | .filter asIs id k inner => filterWrite B asIs id k (write B inner)
+  | .filter asIs id k inner => filterWrite B asIs asIs id k (write B inner)
   | .transform id k inner => transformWrite B id k (write B inner)
   | .dedupe id k inner => dedupeWrite B id k (write B inner)
   | .multi a b => multiWrite (write B a) (write B b)
